@@ -139,11 +139,12 @@ def rule_stub_rm(spec):
 
 def jobs(tier):
     out = []
+    TR = traits_of(NAME, OPS, decls=TU_EXTRA)
     for op, a, m, tr in all_roots():
         if tr == 'lazy' and tier != 'thorough' and not (a == 1 and m == 0):
             continue
         stub, post = spec_for(op, a, m)
-        con = Contract(comb_requires(), Clause('assigns', 'IT_FIELDS(in), g_turn, g_pos, g_done, g_iter, g_last, g_called, g_ok, g_len, g_ncalls, vf_exc, vf_exc_counter, g_exc_obj, g_exc_type'))
+        con = Contract(comb_requires(), Clause('assigns', 'IT_FIELDS(in), g_turn, g_pos, g_done, g_iter, g_last, g_called, g_ok, g_len, g_ncalls, g_ae, g_re, g_lp, vf_exc, vf_exc_counter, g_exc_obj, g_exc_type'))
         con.add(E('VALID_POST(in)', 'RC-VALID', ('C02', 'C03')))
         con.add(E('MONO(in)', 'RC-MONO', ('C02',)))
         con.add(E('BOOL01(RET)', 'ret-bool'))
@@ -154,8 +155,10 @@ def jobs(tier):
             con.add(E('(!vf_exc.pending && !RET) ==> ITER_UNCHANGED(in)', 'RC-REWIND', ('C02', 'C05')))
         for c in post:
             con.add(c)
+        for c in c11_premises(TR[op], 0 if op == 'raise' else 2 if 'ifmust' in op or op == 'optmust' else 1):
+            con.add(c)
         con.add(E('vf_canary', 'canary_exit'))
-        j = Job(rname(op, a, m, tr), NAME, rname(op, a, m, tr), con, ('C05', 'C02'),
+        j = Job(rname(op, a, m, tr), NAME, rname(op, a, m, tr), con, ('C05', 'C02', 'C11'),
                 stubs=[(r'^bool vf::RM?<\d+>::match<', stub) + (('opt',) if op == 'raise' else ())], prelude=exc_prelude(tr),
                 harness=comb_harness('vf_' + INPUT_TYPES[(tr, 'lf_crlf')], tr, 'w_ret = $ENTRY(&in)').replace('vf_exc.pending = 0;', 'vf_exc.pending = 0; vf_exc.obj = 0; __CPROVER_assume(vf_exc_counter < 1000);' + (' g_begin_byte = in._b0.m_begin.byte; __CPROVER_assume(in._b0.m_begin.byte < ((size_t)1<<62) && in._b0.m_begin.line >= 1 && in._b0.m_begin.line < ((size_t)1<<62) && in._b0.m_begin.column >= 1 && in._b0.m_begin.column < ((size_t)1<<62));' if tr == 'lazy' else '')),
                 expect_fail_canary=('canary_exit',),
